@@ -183,6 +183,9 @@ struct Opts {
     order: u8,
     /// 0: options before the operation, 1: between operation and files, 2: after the files
     place: u8,
+    /// `-o <file>` (documented, not implemented by kp): only generated together with invalid operations
+    #[serde(default)]
+    out: Option<String>,
 }
 
 fn value_opt(short: &str, long: &str, val: &str, is_long: bool, joined: bool) -> Vec<String> {
@@ -222,6 +225,9 @@ impl Opts {
         }
         if self.rt {
             groups.push(vec![if st & 256 != 0 { "--roundtrip".into() } else { "-r".into() }]);
+        }
+        if let Some(o) = &self.out {
+            groups.push(vec!["-o".into(), o.clone()]);
         }
         if !groups.is_empty() {
             let k = self.order as usize % groups.len();
@@ -582,8 +588,24 @@ fn check_plan(plan: &Plan, rec: &mut Rec) -> CaseResult {
     };
     if let Lib::OpRejected(e) = &lib {
         rec.class("outcome:invalid-operation");
-        expect_error(&format!("the library rejects the operation ({e})"), "invalid-operation-accepted")?;
-        rec.nontrivial(&(plan.op.clone(), "invalid"));
+        let kind = if plan.recs.is_empty() { "no coordinate line" } else { "with coordinate lines" };
+        rec.class(&format!("invalid-operation:{kind}"));
+        expect_error(
+            &format!("the library rejects the operation ({e}); input: {kind}"),
+            if plan.recs.is_empty() { "invalid-operation-accepted-on-empty-input" } else { "invalid-operation-accepted" },
+        )?;
+        vensure!(
+            kp.stdout.iter().all(|b| b.is_ascii_whitespace()),
+            "invalid-operation-output",
+            "the library rejects the operation ({e}), nothing can be computed, but kp prints: {}",
+            ctx_msg(&format!("stdout: {}", head(&String::from_utf8_lossy(&kp.stdout), 3)))
+        );
+        rec.nontrivial(&(plan.op.clone(), plan.parts.clone(), plan.opts.args(), format!("{:?}", plan.feed)));
+        return Ok(());
+    }
+    if plan.opts.out.is_some() {
+        // -o is documented but not implemented: where its output goes is not asserted
+        rec.class("outcome:-o-with-valid-operation-not-compared");
         return Ok(());
     }
     if plan.fault != Fault::None {
@@ -953,7 +975,7 @@ fn opts_strategy() -> impl Strategy<Value = Opts> {
         any::<u8>(),
         prop_oneof![6 => Just(0u8), 1 => Just(1u8), 1 => Just(2u8)],
     )
-        .prop_map(|(z, t, d, dim, inv, rt, style, order, place)| Opts { z, t, d, dim, inv, rt, style, order, place })
+        .prop_map(|(z, t, d, dim, inv, rt, style, order, place)| Opts { z, t, d, dim, inv, rt, style, order, place, out: None })
 }
 
 fn feed_strategy() -> impl Strategy<Value = Feed> {
@@ -1003,9 +1025,13 @@ const INVALID_OPS: [&str; 14] = [
     "+proj=nonexistent",
 ];
 
+fn invalid_op() -> impl Strategy<Value = String> {
+    any::<u16>().prop_map(|i| INVALID_OPS[pick(i, INVALID_OPS.len())].to_string())
+}
+
 fn job_strategy(max_lines: usize, five: bool) -> impl Strategy<Value = Job> {
     (
-        valid_op(),
+        prop_oneof![15 => valid_op(), 1 => invalid_op().boxed()],
         prop::collection::vec(any_line(five), 0..=max_lines),
         prop::collection::vec(any::<u16>(), 0..=3),
         feed_strategy(),
@@ -1109,6 +1135,15 @@ const BIG_SIZES: [usize; 9] = [24_999, 25_000, 25_001, 49_999, 50_000, 50_001, 2
 const BIG_OPS: [&str; 6] = ["geo:in | utm zone=32", "addone", "geo:in | cart", "helmert x=10.5 y=-20.25 z=30", "noop", "geo:in | utm zone=33 | neu:out"];
 
 fn big_case(i: usize, seed: u64) -> Big {
+    if i < 3 {
+        // an invalid operation must be refused also when more than one batch has been read
+        let mut b = big_case(i + 3, seed);
+        b.op = INVALID_OPS[[0, 1, 4][i]].to_string();
+        b.n = [BATCH, BATCH + 1, 2 * BATCH + 1][i];
+        b.wide_at = 10;
+        b.cuts.retain(|c| *c < b.n);
+        return b;
+    }
     let h = mix(seed, i as u64);
     let n = BIG_SIZES[i % BIG_SIZES.len()];
     let op = BIG_OPS[(i / BIG_SIZES.len() + (h % 6) as usize) % BIG_OPS.len()].to_string();
@@ -1138,6 +1173,7 @@ fn big_case(i: usize, seed: u64) -> Big {
         style: (h >> 42) as u16,
         order: (h >> 58) as u8,
         place: 0,
+        out: None,
     };
     Big { op, n, width, wide_at, junk_every, cuts, feed, opts, salt: (h >> 44) as u32 % 1000 }
 }
@@ -1210,6 +1246,7 @@ fn matrix_case(i: usize) -> Job {
             style: h as u16,
             order: (h >> 16) as u8,
             place: 0,
+            out: None,
         },
         final_newline: true,
         fault: Fault::None,
@@ -1300,6 +1337,53 @@ fn error_case(i: usize) -> Job {
     j
 }
 const ERROR_CASES: usize = INVALID_OPS.len() * 3 + 36;
+
+/// invalid operation x every input class (no coordinate line at all ... a few lines) x option sets
+fn invalid_inputs() -> Vec<(Vec<Line>, Vec<u16>, Feed)> {
+    let mut v = empty_inputs();
+    let c = |t: &str| Line::Comment(0, t.into());
+    let one = || data(vec![num("55"), num("12")]);
+    v.push((vec![Line::Blank(0), Line::Blank(0)], vec![0, 30000, 65535], Feed::Files)); // four files, all without coordinates
+    v.push((vec![c(" nothing here")], vec![65535], Feed::Dash(0))); // comment on stdin, then an empty file
+    v.push((vec![one()], vec![], Feed::Stdin));
+    v.push((vec![one()], vec![], Feed::Files));
+    v.push((vec![c(" header"), one(), Line::Blank(1)], vec![], Feed::Files));
+    v.push((vec![one(), data(vec![num("56"), num("13"), num("100"), num("2020")])], vec![32768], Feed::Files));
+    v.push((vec![c(" first file has no coordinates"), Line::Blank(0), one()], vec![43000], Feed::Dash(1)));
+    v
+}
+const INVALID_INPUTS: usize = 15;
+const INVALID_OPTS: usize = 10;
+
+fn invalid_case(i: usize) -> Job {
+    let inputs = invalid_inputs();
+    assert_eq!(inputs.len(), INVALID_INPUTS);
+    let (lines, cuts, feed) = inputs[i % INVALID_INPUTS].clone();
+    let r = i / INVALID_INPUTS;
+    let op = INVALID_OPS[r % INVALID_OPS.len()].to_string();
+    let o = r / INVALID_OPS.len();
+    let h = mix(11, i as u64);
+    let mut opts = Opts { style: h as u16, order: (h >> 16) as u8, place: [0, 0, 0, 1, 2][(h >> 24) as usize % 5], ..Opts::default() };
+    match o {
+        0 => {}
+        1 => opts.d = Some(3),
+        2 => opts.dim = Some(3),
+        3 => opts.inv = true,
+        4 => opts.rt = true,
+        5 => opts.z = Some("100".into()),
+        6 => opts.t = Some("2015.5".into()),
+        7 => opts.out = Some("result.txt".into()),
+        8 => {
+            opts.inv = true;
+            opts.rt = true;
+        }
+        _ => {
+            opts = Opts { z: Some("-5".into()), t: Some("2000".into()), d: Some(2), dim: Some(4), inv: true, rt: true, out: Some("result.txt".into()), ..opts };
+        }
+    }
+    Job { op, lines, cuts, feed, opts, final_newline: i % 3 != 0, fault: Fault::None, twin: false, fancy_names: i % 7 == 0, exclude_known: false }
+}
+const INVALID_CASES: usize = INVALID_INPUTS * INVALID_OPS.len() * INVALID_OPTS;
 
 // ---- robustness: text outside the documented format -----------------------------------------------
 
@@ -1441,6 +1525,7 @@ fn main() {
     run.assume("without -d / -D the defaults are modelled for inputs of at most one batch only: decimals 5 if the first printed number is > 1000, 10 if it is below 1000 in magnitude (otherwise, and for several batches, the number of decimals is read off kp's own line and only the values are compared); dimension = widest coordinate line of the whole input");
     run.assume("sexagesimal values whose minute/second parts are not binary fractions of a degree are compared with a tolerance of one unit of the last printed decimal + 1e-7 (evaluation order of D+M/60+S/3600 is not documented); all other lines textually");
     run.assume("lines containing tokens that are neither reals nor sexagesimal values still count as coordinate lines (one output line, right number of columns), their values are not compared; a fifth column is ignored");
+    run.assume("an invalid operation must be refused (non-zero status, message, no output) whatever the input, including input without any coordinate line: 'empty input ends normally' is read as a statement about valid operations");
     run.assume("negative option values are passed as -z=-5 / --height=-5 (clap rejects '-z -5'); option values are plain reals");
     run.assume("a roundtrip whose two legs report different success counts may be refused by kp with an error (its documented check); operations are restricted to ones that treat tuples independently and need no resource files");
     run.watchdog(std::time::Duration::from_secs(180), false);
@@ -1467,11 +1552,11 @@ fn main() {
     );
 
     // 3. more than one internal batch
-    let n = run.scale(18, 270);
+    let n = run.scale(17, 273);
     let seed = run.seed;
     run.sweep(
         "large-inputs",
-        "24 999 ... 75 000 coordinate lines (sizes around 1x, 2x, 3x the 25 000 batch: one below, exactly, one above), column layouts (fixed 1-4, cycling, one wide line at the batch edge), comment/blank lines interleaved, file boundaries at/before/after the batch boundary, stdin, option sets; every line compared; inputs split over files are re-run as one stream and must give identical bytes",
+        "24 999 ... 75 000 coordinate lines (sizes around 1x, 2x, 3x the 25 000 batch: one below, exactly, one above), column layouts (fixed 1-4, cycling, one wide line at the batch edge), comment/blank lines interleaved, file boundaries at/before/after the batch boundary, stdin, option sets; every line compared; inputs split over files are re-run as one stream and must give identical bytes; the first three cases use an invalid operation (error expected after 25 000 / 25 001 / 50 001 lines)",
         n,
         move |i| big_case(i, seed),
         check_big,
@@ -1483,6 +1568,15 @@ fn main() {
         "14 invalid definitions (unknown operator, missing/invalid parameter, broken pipeline, unknown macro, non-invertible inv, missing grid, empty) x {stdin, file, two files + options}; a missing file / a directory as first, middle, last file argument x {alone, one, two readable files} x option sets: non-zero status below 101 and a message on stderr",
         ERROR_CASES,
         error_case,
+        check_job,
+    );
+
+    // 4b. invalid operation x every input class x option sets
+    run.enumerate(
+        "invalid-operation-any-input",
+        "14 invalid definitions x 15 inputs (empty stdin, empty file, two/three/four empty files, '-' among empty files, blank lines only, comments only, comment on stdin + empty file; one coordinate line on stdin / in a file / between comments; two lines in two files; coordinates only in the second part) x 10 option sets (none, -d, -D, --inv, --roundtrip, -z, -t, -o, --inv --roundtrip, all together), option position varied: non-zero status below 101, a message on stderr, nothing on stdout - also when there is no coordinate line to transform",
+        INVALID_CASES,
+        invalid_case,
         check_job,
     );
 
